@@ -73,11 +73,10 @@ func runLBAcct(x *X) {
 		h.reached++
 		x.mu.Unlock()
 		h.net.ev("inv", id, "", 0, "client-gone")
-		go func() {
-			// runs outside the scheduler on purpose: it touches no Helios state
-			time.Sleep(500 * time.Millisecond)
-			cancel()
-		}()
+		// (the timer callback runs outside the scheduler on purpose: it touches no Helios state;
+		// a timer, not a sleeping goroutine: nothing may be left asleep when the bubble ends)
+		gone := time.AfterFunc(500*time.Millisecond, cancel)
+		defer gone.Stop()
 		func() {
 			defer func() {
 				if p := recover(); p != nil && p != http.ErrAbortHandler {
